@@ -59,6 +59,16 @@ def gen_cases(chk):
             data = "g:6:1:%x:%s:%s" % (n, dbits(scale), dbits(0.0))
             for cfg in ("-", "szMode=SZ_BEST_SPEED"):
                 rt.append("rt %x %s %s 0 %s %s 0 %s %s" % (ty, tup5((n,)), tup5((n,)), dbits(1.0), dbits(1e-3), cfg, data))
+    # constant arrays in every bound mode and rank (the constant test is made on the bound each mode derives; PW_REL has its own entry path)
+    for t in ((100,), (10000,), (30, 40), (8, 9, 10), (3, 4, 5, 6)):
+        for ty in range(10):
+            scale = 3.0 if ES[ty] == 1 else 1000.0
+            n = 1
+            for v in t:
+                n *= v
+            data = "g:6:1:%x:%s:%s" % (n, dbits(scale), dbits(0.0))
+            for mode, pwr in (((1, 0.0), (2, 0.0), (3, 0.0), (10, 1e-3), (10, 1e-7)) if ty < 2 else ((1, 0.0),)):
+                rt.append("rt %x %s %s %x %s %s %s %s %s" % (ty, tup5(t), tup5(t), mode, dbits(1.0), dbits(1e-3), dbits(pwr) if pwr else "0", rng.choice(("-", "szMode=SZ_BEST_SPEED")), data))
     # the back-end hypothesis of the theorem, sampled: wrap(s) <= s + s/3277 + 40 on incompressible strings
     for be, levels in ((0, (-1, 0, 1, 9)), (1, (1, 3, 19))):
         for level in levels:
